@@ -42,7 +42,7 @@ use lightning_signer::util::test_utils::make_test_channel_setup;
 use lightning_signer::{CommitmentPointProvider, SendSync};
 use serde_json::{json, Value};
 use vharness::*;
-use lightning_signer::node::Node;
+use lightning_signer::node::{Node, NodeServices};
 use lightning_signer::persist::Persist;
 use vls_persist::kvv::KVVStore;
 use vls_persist::model::ChainTrackerEntry;
@@ -297,6 +297,25 @@ struct HandlerCtx {
     world: World,
     node: Arc<Node>,
     handler: RootHandler,
+    network: Network,
+    trusted: Vec<PublicKey>,
+}
+
+impl HandlerCtx {
+    fn services(world: &World, trusted: &[PublicKey]) -> NodeServices {
+        let mut sv = world.services();
+        sv.trusted_oracle_pubkeys = trusted.to_vec();
+        sv
+    }
+    /// HandlerBuilder::build: a fresh node when the store is empty, Node::restore_node otherwise
+    fn boot(world: &World, network: Network, trusted: &[PublicKey]) -> (Arc<Node>, RootHandler) {
+        let mut init = HandlerBuilder::new(network, 0, Self::services(world, trusted), world.seed).build().expect("init handler");
+        let (done, _) = init.handle(hsmd_init_message(network)).expect("hsmd init");
+        assert!(done);
+        let handler: RootHandler = init.into();
+        let node = handler.node().clone();
+        (node, handler)
+    }
 }
 
 enum TRef<'a> {
@@ -333,6 +352,8 @@ struct Case {
     stream: Option<(BlockHash, bool)>,
     last_view: String,
     last_store: Option<Value>,
+    /// the height of the last block of `chain`, kept by the harness
+    ghost_height: u32,
 }
 
 fn entry_json(t: &Tracker) -> Value {
@@ -508,13 +529,22 @@ impl Case {
         let keys: Vec<PublicKey> = self.tr().trusted_oracle_pubkeys.clone();
         let trusted: Vec<u64> = keys.iter().map(|k| self.intern.key(k)).collect();
         let _ = fx;
+        // the compiled-in checkpoint a restart may fast-forward to
+        let ck = match lightning_signer::txoo::get_latest_checkpoint(self.network) {
+            Some((height, _hash, fh, header)) => {
+                let h = Headers(header, fh);
+                format!("(Some ({}, {}))", self.coq_headers(&h), height)
+            }
+            None => "None".to_string(),
+        };
         format!(
-            "(mkcfg {} {} {} {} {})",
+            "(mkcfg {} {} {} {} {} {})",
             net,
             coq_nlist(&trusted),
             coq_bool(self.warn),
             coq_bool(self.allow_deep),
-            if cfg!(debug_assertions) { "Debug" } else { "Release" }
+            if cfg!(debug_assertions) { "Debug" } else { "Release" },
+            ck
         )
     }
 
@@ -752,8 +782,11 @@ impl Case {
 
     /// build the add_block request of the given flavour on top of the current tip
     fn build_add(&mut self, fx: &Fixture, rng: &mut Rng, fl: Flavour) -> (Built, Vec<(usize, Stage)>) {
-        let tip = self.tr().tip.clone();
-        let height = self.tr().height.wrapping_add(1);
+        // built from the harness's own record of the chain and height, never from the tracker: a
+        // tracker that went astray still gets the request that is correct for the real chain
+        let (tip_block, tip_fh) = self.chain.last().cloned().unwrap();
+        let tip = Headers(tip_block.header, tip_fh);
+        let height = self.ghost_height.wrapping_add(1);
         let (txs, changes) = self.next_txs(fx, rng);
         let prev_hash = match fl {
             Flavour::WrongPrev => {
@@ -831,7 +864,7 @@ impl Case {
             Flavour::WrongSuppliedFilter => prev.1 = FilterHeader::from_byte_array([0x33; 32]),
             _ => {}
         }
-        let height = self.tr().height;
+        let height = self.ghost_height;
         let fh = filter_header_of(&tip_block, &prev.1);
         let all_txids: Vec<Txid> = tip_block.txdata.iter().map(|t| t.compute_txid()).collect();
         let ptype = match fl {
@@ -905,6 +938,7 @@ struct StepOut {
     atomic_violation: Option<Value>,
     invalid_accepted: Option<Value>,
     store_violation: Option<Value>,
+    restart_violation: Option<Value>,
     /// which decision points of the code this request sat on (coverage counters)
     tags: Vec<String>,
     /// the harness's own judgement that this request is correct in every respect it can
@@ -947,7 +981,7 @@ impl Case {
             self.last_store = stored;
         }
         let coq_obs = self.coq_obs(code);
-        StepOut { coq_req, coq_obs, code, what, atomic_violation, invalid_accepted, store_violation, tags: vec![], expected_ok }
+        StepOut { coq_req, coq_obs, code, what, atomic_violation, invalid_accepted, store_violation, restart_violation: None, tags: vec![], expected_ok }
     }
 
     /// add_block with a compact, full-block or external proof (the stream, if any, was sent before)
@@ -991,6 +1025,7 @@ impl Case {
         let code = self.call_add(b.header, b.proof.clone());
         if code == 0 {
             self.chain.push((b.block.clone(), b.fh));
+            self.ghost_height = self.ghost_height.wrapping_add(1);
             self.undo.push(changes);
         } else {
             for (i, st) in changes {
@@ -1053,6 +1088,7 @@ impl Case {
         let code = self.call_remove(proof.clone(), prev.clone());
         if code == 0 {
             self.chain.pop();
+            self.ghost_height = self.ghost_height.wrapping_sub(1);
             if let Some(changes) = self.undo.pop() {
                 for (i, st) in changes {
                     self.stage[i] = st;
@@ -1071,6 +1107,58 @@ impl Case {
         }
         if bypass && code == 0 && !(pok && half) {
             o.tags.push("remove accepted through the all-zero filter header bypass".into());
+        }
+        o
+    }
+
+    /// the signer restarts: a new node and handler from the store alone
+    fn do_restart(&mut self) -> StepOut {
+        let pre_mem = entry_json(&self.tr());
+        let stored_before = self.stored_entry();
+        // the monitor states the store holds
+        let mons: Vec<u64> = match &stored_before {
+            Some(e) => e["listeners"].as_array().map(|a| a.iter().map(|l| self.intern.mon(&l[1][0])).collect()).unwrap_or_default(),
+            None => vec![],
+        };
+        let coq_req = format!("(Restart {})", coq_nlist(&mons));
+        let (network, trusted) = { let h = self.hctx.as_ref().unwrap(); (h.network, h.trusted.clone()) };
+        let booted = {
+            let h = self.hctx.as_ref().unwrap();
+            catch_unwind(AssertUnwindSafe(|| HandlerCtx::boot(&h.world, network, &trusted)))
+        };
+        let code = match booted {
+            Ok((node, handler)) => {
+                let h = self.hctx.as_mut().unwrap();
+                h.node = node;
+                h.handler = handler;
+                0
+            }
+            Err(_) => ABORT,
+        };
+        self.stream = None;
+        let mut o = self.finish_step(coq_req, "restart".into(), code, &pre_mem, None, false);
+        o.store_violation = None; // judged here, not by the request rules
+        if code == 0 {
+            // the property itself: the restarted tracker is the stored one (the only documented
+            // exception: height 0 on a network with a checkpoint), and the store is not rewritten
+            let mem = entry_json(&self.tr());
+            let stored_after = self.stored_entry();
+            let fast_forward = pre_mem["height"] == json!(0) && lightning_signer::txoo::get_latest_checkpoint(network).is_some();
+            if let Some(before) = &stored_before {
+                if !fast_forward && mem != *before {
+                    o.restart_violation = Some(json!({"restart_changed_the_tracker": diff_entries(before, &mem),
+                        "stored_height": before["height"], "height_after_restart": mem["height"]}));
+                }
+            }
+            if stored_after != stored_before && !fast_forward {
+                o.restart_violation = Some(json!({"restart_rewrote_the_stored_tracker": true}));
+            }
+            self.last_store = stored_after;
+            if fast_forward {
+                o.tags.push("restart at height 0 fast-forwards to the checkpoint".into());
+            } else {
+                o.tags.push(format!("restart at height {} on {:?}: nothing moves", if pre_mem["height"] == json!(0) { "0" } else { ">0" }, network));
+            }
         }
         o
     }
@@ -1124,10 +1212,10 @@ fn new_case(fx: &Fixture, st: &Start, salt0: u32) -> Case {
     new_case_on(fx, st, salt0, false)
 }
 
-fn hsmd_init_message() -> Message {
+fn hsmd_init_message(network: Network) -> Message {
     Message::HsmdInit(msgs::HsmdInit {
         key_version: vls_protocol::model::Bip32KeyVersion { pubkey_version: 0x0488b21e, privkey_version: 0x0488ade4 },
-        chain_params: genesis_block(NETWORK).block_hash(),
+        chain_params: genesis_block(network).block_hash(),
         encryption_key: None,
         dev_privkey: None,
         dev_bip32_seed: None,
@@ -1174,12 +1262,9 @@ fn new_case_on(fx: &Fixture, st: &Start, salt0: u32, via_handler: bool) -> Case 
         }
         let mut seed = [0xc1u8; 32];
         seed[1..5].copy_from_slice(&salt0.to_le_bytes());
-        let world = World::new(policy, seed, KeyDerivationStyle::Native);
-        let mut init = HandlerBuilder::new(NETWORK, 0, world.services(), world.seed).build().expect("init handler");
-        let (done, _) = init.handle(hsmd_init_message()).expect("hsmd init");
-        assert!(done);
-        let handler: RootHandler = init.into();
-        let node = handler.node().clone();
+        let world = World::new_on(st.network, policy, seed, KeyDerivationStyle::Native);
+        let (node, handler) = HandlerCtx::boot(&world, st.network, &trusted);
+        let trusted_keys = trusted.clone();
         {
             let mut t = node.get_tracker();
             t.headers = headers;
@@ -1198,7 +1283,7 @@ fn new_case_on(fx: &Fixture, st: &Start, salt0: u32, via_handler: bool) -> Case 
             }
         }
         world.persister.update_tracker(&node.get_id(), &node.get_tracker()).expect("persist start state");
-        (None, Some(HandlerCtx { world, node, handler }))
+        (None, Some(HandlerCtx { world, node, handler, network: st.network, trusted: trusted_keys }))
     } else {
         let mut tracker: Tracker = ChainTracker::restore(
             headers,
@@ -1239,6 +1324,7 @@ fn new_case_on(fx: &Fixture, st: &Start, salt0: u32, via_handler: bool) -> Case 
         stream: None,
         last_view: String::new(),
         last_store: None,
+        ghost_height: st.height,
     }
 }
 
@@ -1321,8 +1407,11 @@ fn split_points(rng: &mut Rng, len: usize) -> Vec<usize> {
 fn run_case(fx: &Fixture, rng: &mut Rng, id: usize, stats: &mut BTreeMap<String, u64>, max_window: usize, via_handler: bool) -> Value {
     let mut st = gen_start(rng, max_window);
     if via_handler {
-        // NodeConfig::new(Regtest) as built by HandlerBuilder; the tracker's network field is set
+        // a whole signer (HandlerBuilder -> Node) over a KVV store, on Regtest or on Testnet (which
+        // has compiled-in checkpoints); deep reorgs as NodeConfig::new / restore_node set them
         st.window = st.window.min(5);
+        st.network = if rng.chance(1, 2) { Network::Testnet } else { Network::Regtest };
+        st.allow_deep = st.network == Network::Testnet;
     }
     let mut case = new_case_on(fx, &st, id as u32 + 1, via_handler);
     case.last_store = case.stored_entry();
@@ -1340,12 +1429,18 @@ fn run_case(fx: &Fixture, rng: &mut Rng, id: usize, stats: &mut BTreeMap<String,
     let mut kinds = (false, false, false); // saw ok, err, after-err-ok
     let at_boundary = |c: &Case| c.tr().height.wrapping_add(1) % 2016 == 0;
     let mut n = 0;
+    let mut after_restart = false;
+    let mut restart_hits: Vec<Value> = vec![];
     while n < len {
         n += 1;
         let removal = case.chain.len() >= 2 && rng.chance(if force_valid { 1 } else { 3 }, 8);
         let mut outs: Vec<StepOut> = vec![];
         let was_forced = force_valid;
-        if removal {
+        let was_after_restart = after_restart;
+        if via_handler && !force_valid && rng.chance(1, 5) {
+            // the signer restarts from its store; the next request is a correct one
+            outs.push(case.do_restart());
+        } else if removal {
             let fl = if force_valid || (via_handler && rng.chance(3, 4)) {
                 Flavour::Valid
             } else {
@@ -1426,7 +1521,7 @@ fn run_case(fx: &Fixture, rng: &mut Rng, id: usize, stats: &mut BTreeMap<String,
                 let (sblock, declared) = if fl == Flavour::StreamOtherBlock {
                     // a different block is streamed under its own hash; the AddBlock names `b`
                     let txs = vec![coinbase(case.next_salt())];
-                    let tip0 = case.tr().tip.0;
+                    let tip0 = case.chain.last().unwrap().0.header;
                     let oh = mine(tip0.block_hash(), merkle_root(&txs), tip0.bits, 1, true);
                     let ob = Block { header: oh, txdata: txs };
                     let h = ob.block_hash();
@@ -1472,6 +1567,25 @@ fn run_case(fx: &Fixture, rng: &mut Rng, id: usize, stats: &mut BTreeMap<String,
             if let Some(v) = o.store_violation {
                 store.push(v);
             }
+            if let Some(v) = o.restart_violation {
+                restart_hits.push(v);
+            }
+            if o.what == "restart" {
+                if o.code == 0 {
+                    let h1 = case.tr().height.wrapping_add(1);
+                    let moved = o.tags.iter().any(|t| t.contains("fast-forwards"));
+                    if moved {
+                        stop = true; // the harness's chain is not the tracker's any more
+                    } else {
+                        after_restart = true;
+                        force_valid = case.tr().height < u32::MAX - 1 && !(case.network == Network::Testnet && h1 % 2016 == 0);
+                    }
+                }
+                if o.code == ABORT {
+                    stop = true;
+                }
+                continue;
+            }
             let is_block_req = o.what.starts_with("add") || o.what.starts_with("remove");
             if o.code == ABORT {
                 stop = true;
@@ -1488,7 +1602,14 @@ fn run_case(fx: &Fixture, rng: &mut Rng, id: usize, stats: &mut BTreeMap<String,
                 force_valid = false;
             }
             if was_forced && is_block_req && o.expected_ok && o.code != 0 {
-                later.push(json!({"after_a_refused_request_the_correct_request": o.what, "result": code_name(o.code)}));
+                if was_after_restart {
+                    restart_hits.push(json!({"after_a_restart_the_correct_request": o.what, "result": code_name(o.code)}));
+                } else {
+                    later.push(json!({"after_a_refused_request_the_correct_request": o.what, "result": code_name(o.code)}));
+                }
+            }
+            if is_block_req {
+                after_restart = false;
             }
             if was_forced && is_block_req && o.expected_ok {
                 *stats.entry("later:correct_requests_after_a_refusal".into()).or_insert(0) += 1;
@@ -1522,6 +1643,7 @@ fn run_case(fx: &Fixture, rng: &mut Rng, id: usize, stats: &mut BTreeMap<String,
         "nontrivial": kinds.0 && kinds.1 && kinds.2,
         "atomicity_violations": atomic, "later_request_violations": later, "invalid_accepted": invalid,
         "store_violations": store,
+        "restart_violations": restart_hits,
         "coq": coq
     })
 }
@@ -1660,6 +1782,35 @@ fn scripted(_args: &Args) {
             "later_request_violations": later,
             "invalid_accepted": outs.iter().filter_map(|o| o.invalid_accepted.clone()).collect::<Vec<_>>(),
             "coq": coq}));
+    }
+    // (2c) a signer on Testnet (compiled-in checkpoints) whose tracker followed blocks up to a
+    // height below the latest checkpoint restarts from its store: nothing moves, the next
+    // correct block is accepted
+    {
+        let st = Start { network: Network::Testnet, trusted: vec![0], warn: false, allow_deep: true, window: 2, height: 5,
+                         tip_bits_kind: None, tip_fh_zero: false, prev_fh_zero: false, listeners: vec![true, false] };
+        let mut case = new_case_on(&fx, &st, 7006, true);
+        case.last_store = case.stored_entry();
+        let coq_cfg = case.coq_cfg(&fx);
+        let coq_init = case.coq_state();
+        let mut outs = vec![];
+        let (b, ch) = case.build_add(&fx, &mut rng, Flavour::Valid);
+        outs.push(case.do_add(&fx, &b, ch, "add[Valid]".into()));
+        outs.push(case.do_restart());
+        let (b, ch) = case.build_add(&fx, &mut rng, Flavour::Valid);
+        outs.push(case.do_add(&fx, &b, ch, "add[Valid]".into()));
+        let mut hits: Vec<Value> = outs.iter().filter_map(|o| o.restart_violation.clone()).collect();
+        if outs[2].code != 0 {
+            hits.push(json!({"after_a_restart_the_correct_request": outs[2].what, "result": code_name(outs[2].code)}));
+        }
+        let coq = format!("({}, {}, {}, {})", coq_cfg, coq_init,
+            coq_list(&outs.iter().map(|o| o.coq_req.clone()).collect::<Vec<_>>()),
+            coq_list(&outs.iter().map(|o| o.coq_obs.clone()).collect::<Vec<_>>()));
+        emit("CASE", json!({"id": "restart-on-testnet-below-the-checkpoint", "kind": "handler",
+            "ops": outs.iter().map(|o| json!([o.what, code_name(o.code)])).collect::<Vec<_>>(),
+            "atomicity_violations": [], "later_request_violations": [], "invalid_accepted": [],
+            "store_violations": outs.iter().filter_map(|o| o.store_violation.clone()).collect::<Vec<_>>(),
+            "restart_violations": hits, "coq": coq}));
     }
     // (3) observation, not a C13 violation: a correct streamed removal is refused, because
     // remove_block compares the streamed block's hash with the hash of the PREVIOUS header
